@@ -13,10 +13,10 @@ import numpy as np
 from ..common import Slice, fr, inds_tok, run_driver
 
 MODULE = "PyhmsVerif.Props.C15"
-THEOREMS = []
-LEVEL = "exploration"
-LEVEL_TEXT = "Differential correspondence of the real clustering with the Lean operational model and with the declarative definition, plus an independent reference and metamorphic relations; theorems (cluster = spec, mirror, scaling) under construction."
-LEVEL_NOTE = "NumPy norms and means are environment (checked against exact rational geometry within 2^-30 relative); threshold decisions closer than 1e-9 relative are skipped and counted."
+THEOREMS = ['C15.better_prefix', 'C15.nbDist_spec', 'NBC.sortDesc_sorted', 'NBC.sortDesc_perm']
+LEVEL = 'proof'
+LEVEL_TEXT = 'Theorems (all populations, tie patterns, both directions): in a best-first sorted list the strictly better individuals are exactly the prefix before the first individual of equal fitness (better_prefix), hence the nearest-better distance computed by the code equals the minimum over the strictly better individuals of the definition, with the tie-with-best rule (nbDist_spec); the sort is a permutation and best-first. Tie: the real clustering is compared with the operational model AND with the declarative definition on every case (size 2-60, dim 1-8, clustered/uniform/collinear/tied/converged); independent reference + metamorphic relations (permutation, binary64-exact translation, power-of-two scaling, mirror).'
+LEVEL_NOTE = 'Trusted: Lean kernel + standard axioms. Partial proof: the theorems establish that the code scan (slice before the first individual of equal fitness, tie with the best attaches to the best) computes exactly the minimum distance over the strictly better individuals of the definition, on the best-first sorted, genome-tie-broken population; the remaining step (assembling the seed list = filtering the definition predicate) is not proved as a list equality — instead both NBC.cluster (operational) and NBC.spec (declarative) are executed on every correspondence case and must both equal the real result. NumPy norms / means are environment, checked against exact squared distances; threshold decisions closer than 1e-9 relative are skipped by the reference monitor (counted), never by the model comparison, which uses the binary64 values the code used.'
 TECHNIQUE = "differential correspondence with the Lean NBC model + reference definition + metamorphic relations"
 RULE = "case = (population, distance_factor, truncation_factor, direction); populations: size 2-60, dim 1-8, clustered / uniform / collinear / tied fitness / converged to 1e-12; non-trivial = more than one seed returned or ties present or truncation active; distinct by content hash"
 ASSUMPTIONS = ["genomes pairwise distinct (hypothesis of the property)", "fitness values not NaN"]
